@@ -72,6 +72,27 @@ pub fn generate(seed: u64, index: u64, thorough: bool) -> Scenario {
             });
         }
     }
+    // the FitResult is kept after a fit: update the problem inside it and ask the result's
+    // accessors again (own PRNG stream: the rest of the scenario stays as it was)
+    let mut r2 = Rng::new(mix(seed, "C02-result-view", index));
+    if let Some(i) = sc.ops.iter().position(|o| matches!(o, Op::Fit | Op::FitWithStatistics)) {
+        if r2.chance(0.4) {
+            let mut tail = vec![];
+            if r2.chance(0.3) {
+                tail.push(Op::ResultView);
+            }
+            let k = r2.usize_in(1, 2);
+            for _ in 0..k {
+                let base = if r2.chance(0.5) { &d.alpha_true } else { &d.alpha0 };
+                let a = gen_alpha_update(&mut r2, base, &[d.alpha0.clone()], sc.width, false);
+                tail.push(Op::SetParams(fxs(&a)));
+                tail.push(Op::ResultView);
+            }
+            for (j, o) in tail.into_iter().enumerate() {
+                sc.ops.insert(i + 1 + j, o);
+            }
+        }
+    }
     sc
 }
 
@@ -323,6 +344,47 @@ fn exec_t<T: Sc, F: Factory<T>>(sc: &Scenario) -> RunReport {
                         _ => {}
                     }
                     sig.push(format!("F{}", f.ok as u8));
+                }
+            }
+            Op::ResultView => {
+                // the result's accessors, asked again later: they must describe the state the
+                // problem inside the result is in NOW (parameters, coefficients and best fit
+                // belong together)
+                if let Extra::ResultView { nl_params, coeffs, best_fit, best_fit_is_vector } = &st.extra {
+                    rep.probe("result_views");
+                    if nl_params != &sn.params {
+                        rep.violate(sc, "PARAMS_MISMATCH", "ResultView", "FitResult::nonlinear_parameters differs from the parameters of the problem inside the result".into());
+                    }
+                    let cb = coeffs.as_ref().map(|c| crate::sc::mat_bits(c));
+                    if cb != sn.coeff {
+                        rep.violate(sc, "BEST_FIT_MISMATCH", "ResultView/coefficients", "FitResult::linear_coefficients differs from the coefficients of the problem inside the result".into());
+                    }
+                    let faulted_before = log[..st.ev_to.min(log.len())].iter().any(|e| e.fault.is_some());
+                    match (best_fit, coeffs) {
+                        (Some(bf), Some(c)) => {
+                            if bf.shape() != (n, s) || *best_fit_is_vector == sc.mrhs {
+                                rep.violate(sc, "SHAPE_MISMATCH", "ResultView/best_fit", format!("best_fit has shape {:?}, expected ({n},{s})", bf.shape()));
+                            } else {
+                                let params: Vec<T> = to_t(nl_params);
+                                match best_fit_identity(w, &params, bf, c) {
+                                    Ok(true) => rep.probe("best_fit_checked_after_update"),
+                                    Ok(false) => rep.probe("gated_out_nonfinite"),
+                                    Err(e) => rep.violate(sc, "BEST_FIT_MISMATCH", "ResultView/best_fit", e),
+                                }
+                            }
+                        }
+                        (Some(_), None) => {
+                            rep.violate(sc, "BEST_FIT_MISMATCH", "ResultView/best_fit", "best_fit() returns values although the result exposes no coefficients".into());
+                        }
+                        (None, Some(_)) if !faulted_before => {
+                            let params: Vec<T> = to_t(nl_params);
+                            let phi = refmath::phi::<T>(&w.spec, &w.x, &params);
+                            if phi.iter().all(|v| v.f().is_finite()) {
+                                rep.violate(sc, "BEST_FIT_MISMATCH", "ResultView/best_fit", "coefficients are present and the model evaluates, yet best_fit() is None".into());
+                            }
+                        }
+                        _ => {}
+                    }
                 }
             }
             _ => {}
